@@ -563,7 +563,7 @@ def run_est(initialize, dt_min, word, reuse_msgs=False, t0=0.01, keep_ref=True):
             # the node is constructed and not kept by the caller (the bus holds its subscriptions); a collection runs before the first message
             AttitudeEstimator(c, "mrp", spy.eqs(), initialize)
             import gc
-            gc.collect()
+            gc.collect(0)  # the youngest generation holds everything the constructor just made; a full collection per word is slow
         c.init_params()
         c.set_param("mrp/dt_min_accel", dt_min_accel)
         c.set_param("mrp/dt_min_mag", dt_min_mag)
